@@ -61,6 +61,7 @@ class Block:
         self.contract = None
         self.assume = False
         self.finding = None
+        self.alt = None      # (path, spec) used when the primary item is absent (//@extract-or A || B)
 
 
 def parse_template(text):
@@ -82,8 +83,16 @@ def parse_template(text):
                 if buf:
                     out.append(("text", "\n".join(buf) + "\n"))
                     buf = []
+                alt = None
+                if st.startswith("//@extract-or "):
+                    # //@extract-or <path> <spec> || <path2> <spec2>: the item of the first alternative if it
+                    # exists in the working tree, otherwise the second one (e.g. an impl's override of a provided
+                    # trait method, else the trait's default body specialised to that impl)
+                    st, _, alt = st.partition("||")
+                    alt = tuple(alt.split(None, 1))
                 parts = st.split(None, 2)
-                cur = Block(parts[1], parts[2])
+                cur = Block(parts[1], parts[2].strip())
+                cur.alt = alt
                 mode = None
             elif st.startswith("//@assume "):
                 # //@assume <contract> <path> <spec>   (one-line block)
@@ -324,6 +333,67 @@ def split_generics(header_raw):
     return gen, ty, where
 
 
+def split_clauses(s):
+    """split a clause list at top-level commas (only ( [ { nest: `<` `>` are comparison operators here)"""
+    out, d, cur = [], 0, ""
+    for ch in s:
+        if ch in "([{":
+            d += 1
+        elif ch in ")]}":
+            d -= 1
+        if ch == "," and d == 0:
+            out.append(cur)
+            cur = ""
+        else:
+            cur += ch
+    if cur.strip():
+        out.append(cur)
+    return out
+
+
+def split_requires(clauses):
+    """'requires a, b, ensures c,' -> ('a, b,', 'ensures c,')  (keywords at line starts, as the stores write them)"""
+    m = re.search(r"^\s*requires\b", clauses, flags=re.M)
+    if not m:
+        return "", clauses
+    rest = clauses[m.end():]
+    m2 = re.search(r"^\s*(ensures|decreases)\b", rest, flags=re.M)
+    req = rest[:m2.start()] if m2 else rest
+    ens = clauses[:m.start()] + (rest[m2.start():] if m2 else "")
+    # drop line comments inside the requires text (it is re-bracketed into a conjunction)
+    req = re.sub(r"//[^\n]*", "", req)
+    return req, ens
+
+
+def pre_fn_signature(item):
+    """generics, parameter list and call shape of the generated `__pre_<fn>` trait spec fn for an extracted method."""
+    s = item.src
+    sig = s.sig
+    fp = extract.FnParts(item)
+
+    def span(lo, hi):
+        return s.text[s.toks[sig[lo]][1]:s.toks[sig[hi - 1]][2]] if hi > lo else ""
+    gen = span(fp.name_pos + 1, fp.params_open)
+    params = " ".join(span(fp.params_open + 1, fp.params_close).split())
+    if "&mut " in params or "& mut " in params:
+        raise ValueError(f"//@implspec with requires: &mut parameters are not supported ({item.name})")
+    names = []
+    recv = False
+    for a in split_top(params):
+        a = a.strip()
+        if not a:
+            continue
+        if re.fullmatch(r"&?\s*(mut\s+)?self", a):
+            recv = True
+            continue
+        names.append(re.sub(r"^mut\s+", "", a.split(":", 1)[0].strip()))
+    fg = gen.strip()[1:-1].strip() if gen.strip() else ""
+    gnames = [re.split(r"[:=]", x.strip())[0].replace("const ", "").strip() for x in split_top(fg)] if fg else []
+    turbofish = ("::<" + ", ".join(gnames) + ">") if gnames else ""
+    params = re.sub(r"\bmut\s+(\w+\s*:)", r"\1", params)
+    return gen, params, (("self." if recv else "Self::"), turbofish, ", ".join(names))
+
+
 def read_template(unit):
     with open(os.path.join(VERIF, "units", unit + ".rs.in")) as f:
         ttext = f.read()
@@ -358,8 +428,19 @@ def generate(unit, probe=False, repo=None):
                 meta["uses"].add(val[0])
             continue
         b = val
-        item = extract.find(os.path.join(repo, b.path), b.spec)
         drops = []
+        impl_of = None
+        try:
+            item = extract.find(os.path.join(repo, b.path), b.spec)
+        except ExtractError:
+            if not b.alt:
+                raise
+            item = extract.find(os.path.join(repo, b.alt[0]), b.alt[1])
+            if item.parent is not None and item.parent.kind == "trait":
+                # provided trait method standing in for the impl that does not override it: emitted inside
+                # the header of that impl (which must exist: the spec minus its last part)
+                impl_of = extract.find(os.path.join(repo, b.path), b.spec.rsplit(None, 1)[0])
+            drops.append(f"extract-or: {b.path} {b.spec} is absent; emitted instead: {b.alt[0]} {b.alt[1]}")
         if b.finding and not b.rename:
             b.rename = f"{item.name}__finding_{b.finding}"
         if b.contract:
@@ -402,7 +483,9 @@ def generate(unit, probe=False, repo=None):
         if item.kind == "fn" and b.trait is not None:
             ntrait += 1
             tname = f"__Verif{ntrait}_{b.rename or item.name}"
-            gen, ty, where = split_generics(item.parent.header_raw)
+            gen, ty, where = split_generics((impl_of or item.parent).header_raw)
+            if " for " in ty:
+                ty = ty.split(" for ", 1)[1].strip()   # method of `impl Trait for Type`: the extension trait is implemented for Type
             tgen_decl, _, tgen_use = b.trait.partition("|")
             opts["drop_const"] = True   # trait methods cannot be `const fn`
             sig_opts = dict(opts)
@@ -410,15 +493,27 @@ def generate(unit, probe=False, repo=None):
             sig_opts["probe"] = False
             body_opts = dict(opts)
             body_opts["clauses"] = ""
+            pre_decl = pre_def = ""
             if "implspec" in b.flags:
                 # ensures-only contract that mentions fields of the concrete type: Verus accepts it on the impl
                 # method (strengthening), the generated trait declaration stays bare
                 sig_opts["clauses"] = ""
                 body_opts["clauses"] = opts["clauses"]
+                if has_req:
+                    # a precondition cannot be added on an impl method: it goes onto the trait declaration through a
+                    # generated trait spec fn `__pre_<fn>` whose body (the requires text) is given in the impl
+                    req, ens = split_requires(opts["clauses"])
+                    pname = f"__pre_{b.rename or item.name}"
+                    pgen, pparams, pargs = pre_fn_signature(item)
+                    pre_decl = f"    spec fn {pname}{pgen}({pparams}) -> bool;\n"
+                    pre_def = f"    spec fn {pname}{pgen}({pparams}) -> bool {{\n        " + \
+                              " && ".join("(" + c.strip() + ")" for c in split_clauses(req) if c.strip()) + "\n    }\n"
+                    sig_opts["clauses"] = f"    requires {pargs[0]}{pname}{pargs[1]}({pargs[2]}),"
+                    body_opts["clauses"] = ens
             sigtext, _ = extract.emit_item(item, sig_opts, [])
             body_opts["ret"] = b.ret
             text, lost = extract.emit_item(item, body_opts, drops)
-            pre += f"trait {tname}{tgen_decl.strip()} {{\n{sigtext}\n}}\nimpl{gen} {tname}{tgen_use.strip()} for {ty} {where} {{\n"
+            pre += f"trait {tname}{tgen_decl.strip()} {{\n{pre_decl}{sigtext}\n}}\nimpl{gen} {tname}{tgen_use.strip()} for {ty} {where} {{\n{pre_def}"
             post = "\n}\n"
             drops.append(f"method of external type emitted in extension trait {tname}")
         else:
@@ -437,6 +532,7 @@ def generate(unit, probe=False, repo=None):
             "src_line": item.line(), "sha256": extract.sha(raw),
             "out_lines": [start, line - 1], "has_requires": has_req, "contract": bool(b.clauses.strip()),
             "drops": drops, "finding": b.finding,
+            "fallback": (f"{b.alt[0]} {b.alt[1]}" if drops and drops[0].startswith("extract-or:") else None),
         }
         if opts["probe"]:
             meta["probes"].append(rec["name"])
